@@ -928,3 +928,15 @@ m('C05', 'option_has_value_negated', 'src/par/fallible.rs', """    fn has_value(
         self.is_none()""", 'C05-FALLIBLE')
 b('C02', 'find_result_inspected', 'src/core/map_fil_find.rs', "                    .map(|x| (chunk.begin_idx + x.0, x.1));", "                    .inspect(|_| ())\n                    .map(|x| (chunk.begin_idx + x.0, x.1));")
 b('C04', 'cnt_chain_inspected', 'src/core/map_fil_cnt.rs', "                count += chunk.map(&map).filter(&filter).count();", "                count += chunk.inspect(|_| ()).map(&map).filter(&filter).count();")
+m('C01', 'eager_intermediate_reversed', 'src/par/par_map_fil.rs', """        let vec = self.collect_vec();
+        let iter = vec.into_con_iter();
+        ParFlatMap::new(iter, params, flat_map)""", """        let vec = self.collect_vec().into_iter().rev().collect::<Vec<_>>();
+        let iter = vec.into_con_iter();
+        ParFlatMap::new(iter, params, flat_map)""", 'C01-NOSHUFFLE')
+m('C01', 'terminal_result_reversed', 'src/par/par_fil.rs', "ParMapFilter::new(iter, params, map_self, filter).collect_vec()", "ParMapFilter::new(iter, params, map_self, filter).collect_vec().into_iter().rev().collect::<Vec<_>>()", 'C01-NOSHUFFLE')
+m('C01', 'composed_filter_drops_upstream', 'src/par/par_map_fil.rs', "let composed = move |x: &O| filter1(x) && filter(x);", "let composed = move |x: &O| { let _ = &filter1; filter(x) };", 'C01-COMPOSE')
+m('C01', 'composed_filter_forgets_upstream', 'src/par/par_map_fil.rs', "let composed = move |x: &O| filter1(x) && filter(x);", "let composed = move |x: &O| filter(x);", 'C01-KEEP')
+m('C01', 'composed_filter_forgets_new', 'src/par/par_flatmap_fil.rs', "let composed = move |x: &O| filter1(x) && filter(x);", "let composed = move |x: &O| filter1(x);", 'C01-KEEP')
+m('C02', 'find_forgets_predicate', 'src/par/par_map_fil.rs', "let composed = move |x: &O| filter(x) && predicate(x);", "let composed = move |x: &O| filter(x);", 'C01-KEEP')
+m('C02', 'find_forgets_filter', 'src/par/par_filtermap_fil.rs', "let composed = move |x: &O| filter(x) && predicate(x);", "let composed = move |x: &O| predicate(x);", 'C01-KEEP')
+m('C01', 'vec_reserves_nothing', 'src/par/collect_into/vec.rs', "                self.reserve(iter_len);", "                self.reserve(0 * iter_len);", 'C01-RESERVE')
